@@ -152,6 +152,16 @@ def extra_configs(prop, tier, seed):
             c = dict(c, hook='observer', n_iter=8, n_agents=rng.choice([5, 8]), objective=rng.choice(['sphere', 'rastrigin', 'weighted']), box='wide')
             c['lb'], c['ub'] = runlevel.make_box(rng, 'wide', c['n_vars'])
             extra.append(c)
+    if prop in ('C01', 'C06'):
+        # integer-typed lower bounds with fractional (also negative) upper bounds, for the optimizers that clip their
+        # trial solutions through the agents' own bounds
+        rng = _random.Random(seed * 67 + 43)
+        pool = [c for c in runlevel.gen_configs('thorough', seed + 151) if c['space'] == 'search']
+        for kind in ['ABC', 'SA', 'FPA', 'HS', 'CS', 'BA', 'BHA']:
+            for c in [c for c in pool if c['kind'] == kind][:2 if tier == 'quick' else 8]:
+                c = dict(c, hook='observer', adv=0.3, n_iter=max(c['n_iter'], 4), box='intlb', objective=rng.choice(['outside', 'boundary', 'sphere']))
+                c['lb'], c['ub'] = runlevel.make_box(rng, 'intlb', c['n_vars'])
+                extra.append(c)
     if prop in ('C01', 'C07', 'C02', 'C20', 'C15'):
         # the same optimizer object runs another task first (other box, more variables, fewer iterations): what it
         # does in the recorded task must not depend on that
@@ -235,6 +245,14 @@ def extra_configs(prop, tier, seed):
                          store_best_only=rng.random() < 0.3)
                 c['lb'], c['ub'] = runlevel.make_box(rng, 'wide', c['n_vars'])
                 extra.append(c)
+    if prop == 'C15':
+        # AIWPSO whose initial inertia weight lies outside [w_min, w_max] on swarms that never succeed (one particle, flat
+        # objective): the first adaptation step brings w into the range whatever the success count
+        pool = [c for c in runlevel.gen_configs('thorough', seed + 141) if c['kind'] == 'AIWPSO']
+        for j, c in enumerate(pool[:4 if tier == 'quick' else 16]):
+            lo, hi = [(0.1, 0.5), (0.8, 0.95), (0.2, 0.6), (0.75, 0.9)][j % 4]
+            extra.append(dict(c, hook='observer', adv=0.0, n_iter=4, n_agents=1 if j % 2 == 0 else max(2, c['n_agents']),
+                              objective='sphere' if j % 2 == 0 else 'constant', hyper={'w': 0.7, 'w_min': lo, 'w_max': hi, 'c1': 1.7, 'c2': 1.7}))
     if prop == 'C03':
         # a hook that relocates an agent beyond the box: the sweep evaluates exactly what the hook left behind
         rng0 = _random.Random(seed * 59 + 37)
